@@ -24,10 +24,12 @@ def run(ctx):
     n, samples = rw.judge(ctx, main, obs, [], classify)
     wsc, wobs = wiring.replay_rewrite(ctx, main, limit=200)
     nw, _ = rw.judge(ctx, wsc, wobs, [], lambda sc, kind, key: {'via': 'real_wiring'}) if wsc else (0, [])
+    naged = wiring.judge_aged(ctx, 'C15')
     dc_local = sum(1 for s in dc if obs[s['id']].get('body') == 'OK')
     cov = rw.coverage(ctx, main, n, samples,
                       'one scenario per initial state of family "probe"; local reply (200 "OK", backend untouched) XOR exactly one forward')
     cov['scenarios_replayed_through_real_flag_wiring'] = nw
+    cov['requests_on_connections_older_than_the_handshake_timeout'] = naged
     cov['traces_validated_against_impl'] = n + nw
     cov['two_user_agent_lines'] = {'replayed_and_judged_by_first_line': len(dc), 'answered_locally': dc_local}
     return ctx.finish(cov, assumptions=['HTTP/1.1 scenarios are additionally replayed through the real wiring (flag.Parse -> defaultReverseProxyHTTPHandler -> defaultProxyServer) by an in-package driver'])
